@@ -3,7 +3,7 @@ PROP = {
     "coq_targets": ["Properties/C24.vo", "Extract/C24Extract.vo"],
     "properties_file": "Properties/C24.v",
     "theorems": ["C24_at_most_one_partial", "C24_at_most_one_refuted", "C24_cease_race_refuted",
-                 "C24_survivor_is_rfc_choice_partial", "C24_loser_sent_cease_partial",
+                 "C24_survivor_is_rfc_choice_partial", "C24_loser_sent_cease_partial", "C24_only_one_ever_partial",
                  "C24_refines_rfc_partial", "C24_rfc_at_most_one", "C24_should_cease_is_rfc_comparison"],
     "allowed_axioms": [],
     "harness": "c24",
@@ -15,7 +15,7 @@ PROP = {
             "two FSMs of one peer: ALL sequences of enabled steps with at most 1 (quick) / 2 (thorough) KEEPALIVEs per "
             "connection, for 11 identifier configurations (local < / > remote, equal identifiers with both AS orderings, "
             "iBGP, iBGP announcing our identifier, different identifiers on the two connections, adjacent values; values "
-            "drawn from the seed), plus random walks of up to 24 steps; a case is non-trivial when both connections got "
+            "drawn from the seed), plus random walks of up to 24 steps (60% of them restricted to serialised schedules); a case is non-trivial when both connections got "
             "their OPEN processed; distinct = distinct inputs",
     "trusted_base": [
         "extraction (ExtrOcamlBasic only) + ocaml/common/conv.ml + ocaml/c24/c24_run.ml (rendering of the model state "
